@@ -381,6 +381,36 @@ func (w *c08World) look(t int64, key, qname string, qtype uint16, ign bool) c08H
 	return h
 }
 
+// clookTTL: g goroutines look the same key up at the same virtual instant; reports the largest and
+// smallest TTL any of them was shown
+func (w *c08World) clookTTL(t int64, key, qname string, qtype uint16, g int) string {
+	w.sleepUntil(t)
+	op := fmt.Sprintf("clookttl t=%d key=%s g=%d", t, c08Hex(key), g)
+	out := VRecover(func() string {
+		ttls := make([]int, g)
+		var wg sync.WaitGroup
+		for i := 0; i < g; i++ {
+			wg.Add(1)
+			go func() {
+				defer wg.Done()
+				ttls[i] = -1
+				msg := new(dnsmessage.Msg)
+				msg.SetQuestion(dnsmessage.Fqdn(qname), qtype)
+				resp, _ := w.c.LookupDnsRespCache_(msg, key, false)
+				var m dnsmessage.Msg
+				if resp != nil && m.Unpack(resp) == nil && len(m.Answer) > 0 {
+					ttls[i] = int(m.Answer[0].Header().Ttl)
+				}
+			}()
+		}
+		wg.Wait()
+		sort.Ints(ttls)
+		return fmt.Sprintf("minttl=%d maxttl=%d", ttls[0], ttls[g-1])
+	})
+	w.st.Emit(op, out)
+	return out
+}
+
 // clook: g goroutines look the same key up at the same virtual instant
 func (w *c08World) clook(t int64, key, qname string, qtype uint16, g int) {
 	w.sleepUntil(t)
@@ -1175,6 +1205,21 @@ func c08Findings(t *testing.T, st *VStream, stats *VStats, log *logrus.Logger) {
 		w.look(t0+100*c08Sec, ka, "a.test", 1, false) // 95 s into the configured 300 s window: still served
 		st.Emit("note reuse-reload-config end", "note")
 	})
+	// (e) a burst of simultaneous requests for a name nobody asked for in hours
+	st.Emit("note concurrent-stale-ttl begin", "note")
+	for round := 0; round < 25; round++ {
+		synctest.Test(t, func(t *testing.T) {
+			w := &c08World{log: log, st: st, stats: stats}
+			w.cfg(c08Cfg{opt: true, stale: 60})
+			defer func() { _ = w.c.Close() }()
+			t0 := time.Now().UnixNano()
+			ka := w.realKey("idle.test", 1, r0)
+			w.insn(t0, ka, "idle.test.", 1, 86400, 9, 1, 0, 0)
+			w.clookTTL(t0+23*3600*c08Sec, ka, "idle.test", 1, 8) // one hour of lifetime left
+			w.clookTTL(t0+23*3600*c08Sec+40*c08Sec, ka, "idle.test", 1, 8)
+		})
+	}
+	st.Emit("note concurrent-stale-ttl end", "note")
 	// (c) a background refresh that fails while the entry is inside its stale window
 	synctest.Test(t, func(t *testing.T) {
 		w := &c08World{log: log, st: st, stats: stats}
@@ -1345,6 +1390,9 @@ func c08AskHistory(t *testing.T, r *VRand, st *VStream, stats *VStats, log *logr
 		now := time.Now().UnixNano()
 		var sh []c08Shadow
 		ansCounter := r.Intn(1000)
+		// histories with simultaneous identical requests use replies that have answers: a loser of the
+		// re-pack race answers through the answers-only fallback, indistinguishable only then
+		multi := r.Bool()
 		for i := 0; i < nOps; i++ {
 			next := c08NextTime(r, stats, now, cfg, sh)
 			if next-now > 4000*c08Sec {
@@ -1361,6 +1409,9 @@ func c08AskHistory(t *testing.T, r *VRand, st *VStream, stats *VStats, log *logr
 			ansCounter++
 			up.rttl = []uint32{0, 0, 1, 2, 5, 16, 17, 30, 60, 300}[r.Intn(10)]
 			up.ans, up.n, up.ns, up.rcode = ansCounter, []int{1, 1, 2, 0}[r.Intn(4)], []int{0, 0, 1, 3}[r.Intn(4)], 0
+			if multi && up.n == 0 {
+				up.n = 1
+			}
 			if r.Chance(0.05) {
 				up.rcode = 3
 			}
@@ -1371,7 +1422,7 @@ func c08AskHistory(t *testing.T, r *VRand, st *VStream, stats *VStats, log *logr
 				stats.Inc("ask.class_CH")
 			}
 			g := 1
-			if r.Chance(0.12) {
+			if multi && r.Chance(0.25) {
 				g = r.Range(2, 4) // identical requests at the same instant: singleflight followers
 				stats.Inc("ask.simultaneous_identical_requests")
 			}
